@@ -608,5 +608,45 @@ example (pmin c : Rat) (hc : 0 < c) (i : Nat) :
     (quotFl Rounding.exact pmin c (centreFl Rounding.exact pmin c i)).floor = (i : Int) :=
   roundtrip_fl Rounding.exact pmin c hc i (by simp [Rounding.exact])
 
+/-- **Where rounding decides the floor.**  The index computed in rounded arithmetic,
+`⌊fl(fl(x − pmin)/c)⌋`, equals the exact index `k` of the cell that contains `x` whenever `x` is
+at least `3u·|q|` cells (`q = (x − pmin)/c`) away from both faces of that cell; closer to a face
+the computed index may be the neighbour's - this is the band the boundary comparator of the
+correspondence check grants. -/
+theorem point2index_fl (R : Rounding) (pmin c x : Rat) (hc : 0 < c) (k : Int)
+    (hlo : (k : Rat) + 3 * R.u * |(x - pmin) / c| ≤ (x - pmin) / c)
+    (hhi : (x - pmin) / c + 3 * R.u * |(x - pmin) / c| < (k : Rat) + 1) :
+    (quotFl R pmin c x).floor = k := by
+  have h := quot_err R (x - pmin) c hc
+  unfold quotFl
+  rw [abs_le] at h
+  apply rat_floor_eq <;> linarith
+
+/-- … and in any case the computed index is off by at most one cell when `3u·|q| < 1` -/
+theorem point2index_fl_near (R : Rounding) (pmin c x : Rat) (hc : 0 < c)
+    (hs : 3 * R.u * |(x - pmin) / c| < 1) :
+    ((x - pmin) / c).floor - 1 ≤ (quotFl R pmin c x).floor ∧
+    (quotFl R pmin c x).floor ≤ ((x - pmin) / c).floor + 1 := by
+  have h := quot_err R (x - pmin) c hc
+  unfold quotFl
+  rw [abs_le] at h
+  set q := (x - pmin) / c
+  set q' := R.fl (R.fl (x - pmin) / c)
+  have a1 := rat_floor_le q
+  have a2 := rat_lt_floor_add_one q
+  have b1 := rat_floor_le q'
+  have b2 := rat_lt_floor_add_one q'
+  constructor
+  · have : ((q.floor - 1 : Int) : Rat) < (q'.floor : Rat) + 1 := by push_cast; linarith
+    have : q.floor - 1 < q'.floor + 1 := by exact_mod_cast this
+    omega
+  · have : (q'.floor : Rat) < ((q.floor + 1 : Int) : Rat) + 1 := by push_cast; linarith
+    have : q'.floor < q.floor + 1 + 1 := by exact_mod_cast this
+    omega
+
+example (pmin c x : Rat) (hc : 0 < c) (k : Int) (h1 : (k : Rat) ≤ (x - pmin) / c) (h2 : (x - pmin) / c < (k : Rat) + 1) :
+    (quotFl Rounding.exact pmin c x).floor = k :=
+  point2index_fl Rounding.exact pmin c x hc k (by simpa [Rounding.exact] using h1) (by simpa [Rounding.exact] using h2)
+
 
 end DFV.C01
